@@ -445,4 +445,22 @@ def run (cfg : Cfg) (st : State) : List Op → State
 /-- first start on an empty store -/
 def init (cfg : Cfg) : State := boot cfg Store.empty
 
+/-! ### the first read after a load -/
+
+/-- What the first polling pass after a start reports as the value of port `p` as `load_from_data` left it, for a
+register-like driver (`read_value` returns what `write_value` stored: `core/vports.py` VirtualPort): a persisted,
+enabled, writable port whose stored value `v` went to the driver through the write transform reads that driver value
+back through the READ transform (`read_transformed_value`) — `read(write(v))`, which is `v` exactly when the two
+transforms are inverse on `v`. Every other port keeps reporting the loaded value (disabled ports are not read; for the
+others the load did not touch the driver). -/
+def firstRead (cfg : Cfg) (p : Port) : Option PVal :=
+  match p.value with
+  | none => none
+  | some v =>
+    if persistedOf p && enabledOf p && p.pdef.writable then
+      match loadWrites cfg p v with
+      | [some w] => readXform cfg p (some w)
+      | _ => some v
+    else some v
+
 end QtVerif.Config
